@@ -49,7 +49,7 @@ func sm9ScriptOf(st Step, k string) *sm9Script {
 }
 
 func sm9Tamper(b []byte, st Step) []byte {
-	out := append([]byte(nil), b...)
+	out := Roomy(b, 512)
 	if pos := st.Int("pos"); pos >= 0 {
 		if pos >= len(out) {
 			panic(fmt.Sprintf("harness: sm9sys: tamper position %d outside an artefact of %d bytes", pos, len(out)))
